@@ -14,6 +14,22 @@ import time
 import traceback
 
 
+WORKER_ARGS = {}
+_ALIEN = [None]
+
+
+def alien_call(machine, fn, arg, hashseed="271828"):
+    """Call `fn` in a long-lived sibling worker that runs under ANOTHER string-hash salt (a fresh
+    interpreter, not a fork): what "another process" means for anything that depends on hash()."""
+    from . import pool
+
+    if os.environ.get("PYTHONHASHSEED") == hashseed:
+        hashseed = "314159"
+    if _ALIEN[0] is None:
+        _ALIEN[0] = pool.Worker(WORKER_ARGS["stage"], WORKER_ARGS["backend"], allocfault="", hashseed=hashseed)
+    return _ALIEN[0].call(machine, fn, arg)
+
+
 class ChildDied(Exception):
     def __init__(self, how, detail=""):
         super().__init__("%s %s" % (how, detail))
@@ -110,6 +126,8 @@ def worker_main(argv):
     if verif not in sys.path:
         sys.path.append(verif)
 
+    global WORKER_ARGS
+    WORKER_ARGS = {"stage": a.stage, "backend": a.backend, "allocfault": a.allocfault}
     from sim import workload
 
     y = workload.bind()
